@@ -610,13 +610,17 @@ class Evaluator:
         raise Unmodelled(f"unbound name {name}", node)
 
     def e_Tuple(self, e, env, fi):
-        return tuple(self._elts(e.elts, env, fi))
+        xs = self._elts(e.elts, env, fi)
+        return TOP if xs is TOP else tuple(xs)
 
     def e_List(self, e, env, fi):
-        return list(self._elts(e.elts, env, fi))
+        xs = self._elts(e.elts, env, fi)
+        return TOP if xs is TOP else list(xs)
 
     def e_Set(self, e, env, fi):
         xs = self._elts(e.elts, env, fi)
+        if xs is TOP:
+            return TOP
         if not all(_hashable(x) for x in xs):
             raise Unmodelled("set of unknown values", e)
         return set(xs)
@@ -625,7 +629,10 @@ class Evaluator:
         out = []
         for x in elts:
             if isinstance(x, ast.Starred):
-                out.extend(self.iterate(self.ev(x.value, env, fi), x))
+                v = self.ev(x.value, env, fi)
+                if v is TOP:
+                    return TOP
+                out.extend(self.iterate(v, x))
             else:
                 out.append(self.ev(x, env, fi))
         return out
@@ -691,6 +698,8 @@ class Evaluator:
             return BoundMethod(base, attr)
         if base is TOP:
             return TOP
+        if isinstance(base, Builtin):
+            return Builtin(base.name + "." + attr)
         if isinstance(base, BoundMethod):  # attribute of an unmodelled attribute of an opaque object
             return Obj("opaque", f"{getattr(base.recv, 'name', '?')}.{base.name}.{attr}", (), {"__of__": base.recv})
         if isinstance(base, ExtRef):
@@ -818,6 +827,10 @@ class Evaluator:
             d = dict(l)
             d.update(r)
             return d
+        _kv = type({}.keys())
+        if isinstance(op, (ast.BitOr, ast.BitAnd, ast.Sub, ast.BitXor)) and (isinstance(l, _kv) or isinstance(r, _kv)) and isinstance(l, (set, frozenset, _kv)) and isinstance(r, (set, frozenset, _kv)):
+            l = set(l) if isinstance(l, _kv) else l
+            r = set(r) if isinstance(r, _kv) else r
         if isinstance(op, (ast.BitOr, ast.BitAnd, ast.Sub, ast.BitXor)) and isinstance(l, (set, frozenset)) and isinstance(r, (set, frozenset)):
             return {ast.BitOr: l.__or__, ast.BitAnd: l.__and__, ast.Sub: l.__sub__, ast.BitXor: l.__xor__}[type(op)](r)
         if isinstance(op, ast.BitAnd) and isinstance(l, bool) and isinstance(r, bool):
@@ -868,7 +881,11 @@ class Evaluator:
                 return int(ll.const % rr.const)
             if isinstance(op, ast.Pow) and ll.is_const() and rr.is_const():
                 return simplify(Lin({}, ll.const ** int(rr.const)))
-        return TOP
+            return TOP
+        if isinstance(l, MaxMin) or isinstance(r, MaxMin):
+            return TOP
+        # both operands are known but the operation is not modelled: no verdict rather than a guess
+        raise Unmodelled(f"operator {type(op).__name__} on {type(l).__name__} and {type(r).__name__}", node)
 
     def sign(self, v) -> str:
         """'pos' | 'neg' | 'zero' | 'nonneg' | 'nonpos' | '?' for a linear form under the sign facts."""
@@ -1057,7 +1074,10 @@ class Evaluator:
                 d = self.ev(k.value, env, fi)
                 if isinstance(d, dict):
                     for kk, vv in d.items():
-                        kwargs[kk.name if isinstance(kk, Sym) else kk] = vv
+                        kname = kk.name if isinstance(kk, Sym) else kk
+                        if kname in kwargs:
+                            raise Raised("TypeError", e, f"got multiple values for keyword argument '{kname}'")
+                        kwargs[kname] = vv
                         if isinstance(kk, Sym):
                             self.events.append(("label-as-keyword", kk, e))
                 elif d is TOP:
@@ -1065,6 +1085,8 @@ class Evaluator:
                 else:
                     raise Unmodelled("** of non-dict", e)
             else:
+                if k.arg in kwargs:
+                    raise Raised("TypeError", e, f"got multiple values for keyword argument '{k.arg}'")
                 kwargs[k.arg] = self.ev(k.value, env, fi)
         return self.call(f, args, kwargs, e, env, fi)
 
@@ -1322,8 +1344,15 @@ class Evaluator:
         raise Unmodelled(f"dict method {name}", node)
 
     def call_builtin(self, name, args, kwargs, node):
-        if any(a is TOP for a in args) and name not in ("isinstance", "print", "repr", "str", "type", "list", "tuple", "set", "frozenset", "dict", "slice", "len", "zip", "enumerate", "hasattr", "getattr"):
+        if any(a is TOP for a in args) and name not in ("isinstance", "print", "repr", "str", "type", "list", "tuple", "set", "frozenset", "dict", "slice", "len", "zip", "enumerate", "hasattr", "getattr", "dict.fromkeys"):
             return TOP
+        if name == "dict.fromkeys":
+            if args[0] is TOP or isinstance(args[0], Obj):
+                return TOP
+            keys = self.iterate(args[0], node)
+            if not all(_hashable(k) for k in keys):
+                raise Unmodelled("dict.fromkeys with unknown keys", node)
+            return dict.fromkeys(keys, args[1] if len(args) > 1 else None)
         if name == "len":
             x = args[0]
             if isinstance(x, (list, tuple, dict, set, frozenset, str, _Iter, type({}.keys()), type({}.values()), type({}.items()))):
